@@ -65,6 +65,12 @@ theorem transaction_is_one_bracket (b : Stacks) (first : Spawn) (turns : List Tu
   rw [hfin] at ht
   rw [hr.word]; exact ht
 
+/-- "exactly one": per kind, a transaction that returns makes as many `*_end` callbacks as opening ones -/
+theorem as_many_ends_as_opens (b : Stacks) (first : Spawn) (turns : List Turn) (k : Kind)
+    (h : (runTx b first turns).1 = .finished) :
+    (runTx b first turns).2.word.countP (isOpn k) = (runTx b first turns).2.word.countP (isCls k) :=
+  balanced_counts (hooks_balanced b first turns h) k
+
 /-- the same through the decidable checker -/
 theorem hooks_check (b : Stacks) (first : Spawn) (turns : List Turn)
     (h : (runTx b first turns).1 = .finished) : check (runTx b first turns).2.word = true :=
